@@ -696,7 +696,13 @@ func CheckC16(w *World, s *Snapshot, quiescent bool) []V {
 				got += fmt.Sprintf("%c%s|", "CS"[ch.Dir], ch.Data)
 			}
 			got = strings.TrimSuffix(got, "|")
-			if want := ConvExpected(r.Reps[""]); got != want {
+			want := ConvExpected(r.Reps[""])
+			if g := w.ConvGen[name]; g != 0 {
+				// the executable that is installed now marks its output with its generation
+				c, sv, _ := strings.Cut(want, "|")
+				want = fmt.Sprintf("%s#%d|%s", c, g, sv)
+			}
+			if got != want {
 				sym, note := "c16.stale-output", ""
 				for _, j := range s.Parked {
 					if j.Kind == "convert" && j.Gate == "done" {
